@@ -43,7 +43,7 @@ def run(tier="quick", seed=0, replay=None):
         chk.violation("construct", f"SlidingWindowTracker(2) cannot be constructed on NumPy {__import__('numpy').__version__}: "
                       f"{core.err_kind(ex)}: {ex}", {"k": 2})
         return chk.finish()
-    for k in range(1, (chk.count(5, 8)) + 1):
+    for k in range(1, min(chk.count(5, 8), 12) + 1):      # window sizes; the budget scale goes into the repetitions, not into k
         for n in range(1, 3 * k + 3):
             for rep in range(chk.count(2, 6)):
                 style = chk.rng.choice(["int", "dyadic", "offset"])
